@@ -234,6 +234,7 @@ def child(w: int, sc: dict[str, Any], base: str) -> None:
             if sc.get("lazy"):
                 check("inside:lazy-is-fake", isinstance(sys.modules["fsv_mod_lazy"].connect, mock.MagicMock))
             conn = snowflake.connector.connect(database="db1", schema="s1")
+            holder["conn"] = conn
             check("inside:fake-connection-works", type(conn).__name__ == "FakeSnowflakeConnection" and conn.cursor().execute("select 1").fetchall() == [(1,)])
             if eager and eager[0].endswith("connect"):
                 c2 = getattr(sys.modules[eager[0].rsplit(".", 1)[0]], eager[0].rsplit(".", 1)[1])(database="db1", schema="s1")
@@ -274,6 +275,12 @@ def child(w: int, sc: dict[str, Any], base: str) -> None:
                 check("after-exit:instance-connection-closed", False, "instance's DuckDB connection still open")
             except BaseException:  # noqa: BLE001
                 check("after-exit:instance-connection-closed", True)
+        if holder.get("conn") is not None:
+            try:
+                holder["conn"].cursor().execute("select 1")
+                check("after-exit:session-connection-closed", False, "a connection made inside the block still executes statements")
+            except BaseException:  # noqa: BLE001
+                check("after-exit:session-connection-closed", True)
     # re-entry
     try:
         with fakesnow.patch():
